@@ -396,6 +396,7 @@ func (x *Unit) readLV(st *State, lv *LV) Val {
 		}
 		h := x.heapGet(st, lv.key, ArraySort(SInt, lv.srt))
 		v := Val{Select(h, lv.ref), lv.typ}
+		x.entryRefFact(lv)
 		return v
 	case lvField:
 		p := x.readLV(st, lv.parent)
@@ -1332,4 +1333,27 @@ func (x *Unit) typeTest(v Val, to types.Type) T {
 		return And(Cmp(">", IfaceTyp(v.T), IntLit(0)), x.uf(name, SBool, IfaceTyp(v.T)))
 	}
 	return Eq(IfaceTyp(v.T), IntLit(int64(x.u.TypeID(to))))
+}
+
+// entryRefFact: a reference stored anywhere in the entry heap was allocated before entry.
+func (x *Unit) entryRefFact(lv *LV) {
+	if x.binders > 0 || lv.srt != SInt || lv.typ == nil || x.entry == nil {
+		return
+	}
+	switch under(lv.typ).(type) {
+	case *types.Pointer, *types.Map, *types.Chan:
+	default:
+		return
+	}
+	h0 := x.epochLookup(x.entry.epoch, lv.key, ArraySort(SInt, lv.srt))
+	k := h0.S + "@" + lv.ref.S
+	if x.entryFacts == nil {
+		x.entryFacts = map[string]bool{}
+	}
+	if x.entryFacts[k] {
+		return
+	}
+	x.entryFacts[k] = true
+	v0 := Select(h0, lv.ref)
+	x.fact(And(Cmp(">=", v0, IntLit(0)), Cmp("<=", x.proot(v0), x.entry.alloc)))
 }
